@@ -473,6 +473,49 @@ func (c *Ctx) c01MetablockBinding(R string) {
 				}
 			}
 		}
+		// the same selection in an unexported helper that is handed (receiver.Signatures, keyID) and whose results are
+		// returned as they are
+		if !okSel {
+			if via, idx := producer(r.Results[0], r); via != nil && idx == 0 {
+				if h := via.Common().StaticCallee(); h != nil && h.Blocks != nil && h.Pkg == gk.Pkg && h.Parent() == nil && h.Object() != nil && !h.Object().Exported() && errIndex(h) == 1 && (c.okCallAt(via, r.Block()) || c01ForwardsErr(r, via)) {
+					li, ki := -1, -1
+					for j, a := range via.Common().Args {
+						if org(a) == "p0.Signatures" {
+							li = j
+						}
+						if resolve(a, via) == ssa.Value(gk.Params[1]) {
+							ki = j
+						}
+					}
+					if li >= 0 && ki >= 0 && li < len(h.Params) && ki < len(h.Params) {
+						elem, key := fmt.Sprintf("p%d[*]", li), fmt.Sprintf("p%d", ki)
+						hrets := c.nilErrReturns(h)
+						sel := len(hrets) > 0
+						for _, hr := range hrets {
+							okR := false
+							if org(hr.Results[0]) == elem {
+								for _, b := range h.Blocks {
+									for _, in := range b.Instrs {
+										bo, ok := in.(*ssa.BinOp)
+										if !ok || bo.Op != token.EQL {
+											continue
+										}
+										x, y := org(bo.X), org(bo.Y)
+										if ((x == elem+".KeyID" && y == key) || (y == elem+".KeyID" && x == key)) && c.condAt(bo, true, hr.Block()) {
+											okR = true
+										}
+									}
+								}
+							}
+							sel = sel && okR
+						}
+						if sel {
+							okSel, o = true, "p0.Signatures[*]"
+						}
+					}
+				}
+			}
+		}
 		c.check(okSel && o == "p0.Signatures[*]", R, fname(gk), "selected signature", instrPos(r), "returns receiver.Signatures[i] under Signatures[i].KeyID == keyID", "returned signature "+o+" is not selected by key id equality")
 	}
 }
@@ -829,4 +872,13 @@ func (c *Ctx) canonicalSite(f *ssa.Function) (ssa.CallInstruction, ssa.Value) {
 		}
 	}
 	return nil, nil
+}
+
+// c01ForwardsErr: the return hands on the error result of the call as its own error result.
+func c01ForwardsErr(r *ssa.Return, via ssa.CallInstruction) bool {
+	if len(r.Results) != 2 {
+		return false
+	}
+	pc, idx := producer(r.Results[1], r)
+	return pc == via && idx == 1
 }
